@@ -5,7 +5,8 @@ import itertools
 
 
 def plan(tier):
-    fut = [C01.scen(0, 14), C01.scen(0, 10), C01.scen(0, 11), C01.scen(0, 12), C01.scen(2, 13), C01.scen(3, 12), C01.scen(0, 0)]
+    fut = [C01.scen(0, 14), C01.scen(0, 10), C01.scen(0, 11), C01.scen(0, 12), C01.scen(2, 13), C01.scen(3, 12), C01.scen(0, 0),
+           C01.scen(0, 10, 14), C01.scen(0, 11, 13)]     # a waiter registered early, the resolver, and a third thread that learns readiness by polling
     if tier != 'quick':
         fut += [C01.scen(1, 10), C01.scen(1, 11), C01.scen(2, 14), C01.scen(0, 10, 11), C01.scen(0, 12, 14), C01.scen(0, 0, 14)]
     mtx = [s for s in C07.scenarios('quick') if s['name'] in ('own_dtor_vs_wait', 'own_release_vs_try', 'free_try_wait', 'free_wait_wait', 'own_release_vs_coro', 'own_preq_vs_wait', 'own_preq_vs_try')]
@@ -36,7 +37,7 @@ def plan(tier):
             out.append(list(extra) + [len(h)] + h)
         return out
     qv = hist(5)
-    lqv = [[lim] + v for lim in (0, 1) for v in hist(6)] if tier != 'quick' else [[lim] + v for lim in (0, 1) for v in hist(6) if sum(v) % 2 == 0]
+    lqv = [[lim] + v for lim in (0, 1) for v in hist(6)] if tier != 'quick' else [[lim] + v for lim in (0, 1) for v in hist(6) if sum(v) % 3 == lim]
     sv = []
     for n in range(1, (3 if tier == 'quick' else 4)):
         for ks in itertools.product(range(4), repeat=n):
@@ -45,10 +46,11 @@ def plan(tier):
                 v = [n]
                 for j, k in enumerate(ks): v += [k, (j + var) % 3 if k != 0 else (j * (var + 1)) % 3, (j + 2 * var) % 4]
                 sv.append(v)
-    pv = [v for v in hist(8) if tier != 'quick' or (sum(v) % 2 == 1)]
+    pv = [v for v in hist(8) if tier != 'quick' or (sum(v) % 4 == 1)]
     def unit(name, part, entry, vectors, space, conc):
         return dict(engine='e1', name=name, tu='C03.cpp', defines=['C03_PART=%d' % part, 'VF_DISCIPLINE'], entry=entry, unwind=12, vectors=vectors, concrete=conc,
-                    space=space, data='pushed / published values symbolic', bounds='histories of %d operations' % L,
+                    space=space + (' -- quick tier: disc_lqueue decides a third and disc_pub a quarter of these histories (selected by the sum of their operation codes), the thorough tier all' if tier == 'quick' and part in (2, 4) else ''),
+                    data='pushed / published values symbolic', bounds='histories of %d operations' % L,
                     outside='thread_pool (its std::thread / condition_variable use is modelled in C11); accesses made by user callbacks',
                     cbmc_extra=('--max-field-sensitivity-array-size', '1024') if part == 4 else ())
     units += [unit('disc_queue', 1, 'h_disc_queue', qv, 'queue<int>: every history over {push, pop, unblock_pop, size, empty}: every access to the queue object and to heap blocks it allocated under its lock happens with the lock held', [([2, 0, 1], [5]), ([3, 1, 0, 3], [7])]),
@@ -107,6 +109,7 @@ def pool_vectors(tier):
             if not any(o[0] == 2 for o in h): continue                  # some worker runs
             if n == 2 and not any(o == (2, 1) for o in h): continue     # two workers: the second one takes part
             if tier == 'quick' and h[0][0] > 1: continue                # starts with a submission
+            if tier == 'quick' and n == 2 and h[0] not in ((0, 1), (1, 3)): continue   # two workers: the submissions that query / re-schedule through thread_pool::current
             v = [n - 1, len(h)]
             for o in h: v += list(o)
             vs.append(v)
